@@ -22,7 +22,7 @@ if [ "$r_clean" = 0 ] && [ "$r_demo" != 0 ] && [ "$r_suite" = 0 ]; then
   python3 - "$P" "$TN" "$SFX" <<'PY'
 import json,sys
 P,TN,SFX=sys.argv[1:4]
-meta={"id":P+SFX,"breaks_property":P,"demo_test":TN,"round":({"c":2,"d":4}.get(SFX,3)),
+meta={"id":P+SFX,"breaks_property":P,"demo_test":TN,"round":({"c":2,"d":4,"e":5}.get(SFX,3)),
  "needs_to_manifest":"see notes.md (written by the sub-agent that produced the change)",
  "confirmed_by":"tools/import_seed2.sh in the sub-agent's scratch worktree of the repaired tree: demo passes on the unchanged tree; with the patch the whole suite passes and the demo fails",
  "note":"later-round seed, produced AFTER the contracts were written and not used to shape them",
